@@ -26,12 +26,13 @@ THRESHOLDS = [0.0, TINY, 0.25, 0.3, 0.5, 1.0]
 def sizes(tier: str):
     # (n, degree alphabet, max status deviations)
     if tier == "quick":
-        return [(1, 5, 1), (2, 5, 2), (3, 5, 1), (4, 4, 1)]
-    return [(1, 5, 1), (2, 5, 2), (3, 5, 2), (4, 5, 2), (5, 5, 1), (6, 4, 1), (7, 3, 1), (8, 3, 0)]
+        return [(1, 6, 1), (2, 6, 2), (3, 6, 1), (4, 4, 1)]
+    return [(1, 6, 1), (2, 6, 2), (3, 6, 2), (4, 6, 2), (5, 5, 1), (6, 4, 1), (7, 3, 1), (8, 3, 0)]
 
 
 def alphabet(k: int):
-    return {5: [0.0, TINY, 0.25, 0.5, 1.0], 4: [0.0, 0.25, 0.5, 1.0], 3: [0.0, 0.5, 1.0]}[k]
+    # (6: with a NaN degree - an input that was never assigned - next to positive ones)
+    return {6: [0.0, TINY, 0.25, 0.5, 1.0, float("nan")], 5: [0.0, TINY, 0.25, 0.5, 1.0], 4: [0.0, 0.25, 0.5, 1.0], 3: [0.0, 0.5, 1.0]}[k]
 
 
 def methods(n: int):
@@ -49,7 +50,8 @@ def statuses(n: int, maxdev: int):
     out = []
     for d in range(0, maxdev + 1):
         for idx in itertools.combinations(range(n), d):
-            for kinds in itertools.product(("disabled", "unloaded"), repeat=d):
+            # failed-load: the rule's text has a valid first and an invalid second conclusion, its load failed (single deviations)
+            for kinds in itertools.product(("disabled", "unloaded") + (("failed-load",) if d == 1 else ()), repeat=d):
                 st = ["normal"] * n
                 for i, k in zip(idx, kinds):
                     st[i] = k
@@ -88,7 +90,7 @@ def run_case(acc: Acc, engine, block, out, n, degrees, status, mname, params) ->
     out.fuzzy.clear()
     block.activate()
     acc.transitions += 1
-    loaded = [s != "unloaded" for s in status]
+    loaded = [s not in ("unloaded", "failed-load") for s in status]
     enabled = [s != "disabled" for s in status]
     stored, trig, contrib = R.activate(mname, params, list(degrees), loaded, enabled)
     acc.traces += 1
@@ -104,7 +106,7 @@ def run_case(acc: Acc, engine, block, out, n, degrees, status, mname, params) ->
         acc.violate("stored-degree", sig, case, stored, got_deg, f"{mname}{params} degrees={degrees}: stored degrees "
                     f"{got_deg}, expected {stored}")
     got_contrib = sorted((a.term.name, round(float(a.degree), 12)) for a in out.fuzzy.terms)
-    want_contrib = sorted((f"t{k}", round(d, 12)) for k, d in contrib)
+    want_contrib = sorted((f"t{k}", round(d, 12) if d == d else 0.0) for k, d in contrib)  # (an activated term stores NaN as 0)
     if got_contrib != want_contrib:
         acc.violate("contributions", sig, case, want_contrib, got_contrib, f"{mname}{params} degrees={degrees} "
                     f"status={status}: fuzzy output {got_contrib}, expected {want_contrib}")
@@ -113,7 +115,10 @@ def run_case(acc: Acc, engine, block, out, n, degrees, status, mname, params) ->
     acc.transitions += 1
     again = ([float(r.activation_degree) for r in block.rules], [bool(r.triggered) for r in block.rules],
              sorted((a.term.name, round(float(a.degree), 12)) for a in out.fuzzy.terms))
-    if again != (got_deg, got_trig, got_contrib):
+    def key(t):
+        return (["nan" if d != d else d for d in t[0]], t[1], t[2])
+
+    if key(again) != key((got_deg, got_trig, got_contrib)):
         acc.violate("not-repeatable", sig, case, [got_deg, got_trig, got_contrib], list(again),
                     f"{mname}{params} degrees={degrees}: a second activation of the same block gives a different result")
     if any(t and not (d > 0.0) for t, d in zip(got_trig, got_deg)):
@@ -122,8 +127,19 @@ def run_case(acc: Acc, engine, block, out, n, degrees, status, mname, params) ->
 
 
 def apply_status(engine, block, status) -> None:
-    for rule, st in zip(block.rules, status):
+    for k, (rule, st) in enumerate(zip(block.rules, status)):
         rule.enabled = st != "disabled"
+        valid = f"if i{k} is t then o is t{k}"
+        if st == "failed-load":
+            rule.parse(f"{valid} and ghost is t{k}")
+            try:
+                rule.load(engine)
+            except Exception:  # noqa: BLE001
+                pass  # (reported by RuleBlock.load_rules in real use; the rule must simply stay out of the way)
+            continue
+        if rule.text != valid:
+            rule.unload()
+            rule.parse(valid)
         if st == "unloaded":
             rule.unload()
         elif not rule.is_loaded():
@@ -191,7 +207,7 @@ def summarize(tier: str, seed: int, merged: dict) -> dict:
         "rule": (
             "blocks of n rules (n, |degree alphabet|, max status deviations) = "
             f"{sizes(tier)}; all degree vectors x all status vectors within the deviation bound "
-            "(disabled/unloaded; degree alphabets {0, 2^-12, .25, .5, 1} / {0, .25, .5, 1} / {0, .5, 1}) x General, "
+            "(disabled/unloaded/load failed after the first conclusion; degree alphabets {0, 2^-12, .25, .5, 1, NaN} / {0, 2^-12, .25, .5, 1} / {0, .25, .5, 1} / {0, .5, 1}) x General, "
             "Proportional, First/Last(n=0..rules+1, t in {0, 2^-12, .25, .3, .5, 1}), "
             "Highest/Lowest(n=-1..rules+1), Threshold(6 comparators x 6 thresholds); plus batch rejection (size 2) and acceptance of one-element arrays. "
             "states = (block, degrees, status, method) configurations, transitions = RuleBlock.activate calls, traces = "
